@@ -39,12 +39,16 @@ struct Slot {
   std::atomic<int64_t> cur;
   std::atomic<int64_t> chunkEnd;
   std::atomic<int64_t> startedMs;
+  char note[240];
 };
 struct Shared {
   std::atomic<uint64_t> next;
   std::atomic<int> stop;
   Slot w[kMaxWorkers];
 };
+
+char* g_noteSlot = nullptr;  // points into shared memory in a worker / alone-job
+char g_localNote[240];
 
 int64_t nowMs() {
   using namespace std::chrono;
@@ -274,6 +278,8 @@ struct Ctx {
 // body of a worker process
 [[noreturn]] void workerBody(const Ctx& c, int w, int fd, int64_t resumeFrom, int64_t resumeEnd, bool verbose) {
   std::set_terminate(onTerminate);
+  g_noteSlot = c.sh->w[w].note;
+  g_noteSlot[0] = 0;
   std::string errf = g_tmp + "/w" + std::to_string(w) + ".err";
   if (!verbose) {
     int e = ::open(errf.c_str(), O_WRONLY | O_CREAT | O_TRUNC, 0644);
@@ -339,7 +345,14 @@ struct AloneJob {
   bool timedOut = false, finished = false;
 };
 
+char* aloneNotes() {
+  static char* m = (char*)mmap(nullptr, 240 * 64, PROT_READ | PROT_WRITE, MAP_SHARED | MAP_ANONYMOUS, -1, 0);
+  return m;
+}
+
 void startJob(const Ctx& c, AloneJob& j, bool verbose, int slot) {
+  char* notes = aloneNotes();
+  notes[240 * (slot % 64)] = 0;
   int p[2];
   if (pipe(p) != 0) {
     j.finished = true;
@@ -350,6 +363,7 @@ void startJob(const Ctx& c, AloneJob& j, bool verbose, int slot) {
   if (pid == 0) {
     close(p[0]);
     std::set_terminate(onTerminate);
+    g_noteSlot = notes + 240 * (slot % 64);
     if (!verbose) {
       std::string errf = g_tmp + "/alone" + std::to_string(slot) + ".err";
       int e = ::open(errf.c_str(), O_WRONLY | O_CREAT | O_TRUNC, 0644);
@@ -398,6 +412,11 @@ void finishJob(const Ctx& c, AloneJob& j, int slot) {
                     "scenario did not finish within " + std::to_string(j.timeoutSec) + " s when run alone"});
   } else if (!done) {
     auto ci = crashInfo(j.pid, status, g_tmp + "/alone" + std::to_string(slot) + ".err");
+    {
+      char* nt = aloneNotes() + 240 * (slot % 64);
+      std::string n(nt, strnlen(nt, 239));
+      if (!n.empty()) ci.second = "while processing: " + n + "\n" + ci.second;
+    }
     j.vs.push_back({c.d->id() + "|" + c.d->klass(j.idx) + "|crash:" + ci.first + "|%FUNC%", ci.second});
   }
   ::unlink((g_tmp + "/san." + std::to_string(j.pid)).c_str());
@@ -468,6 +487,13 @@ std::vector<Violation> runAlone(const Ctx& c, size_t idx, double timeoutSec, boo
 }
 
 }  // namespace
+
+void note(const std::string& s) {
+  char* dst = g_noteSlot ? g_noteSlot : g_localNote;
+  size_t n = std::min<size_t>(s.size(), 239);
+  memcpy(dst, s.data(), n);
+  dst[n] = 0;
+}
 
 int main(int argc, char** argv, Driver& d) {
   std::string tier = "quick", out, replay;
@@ -616,6 +642,8 @@ int main(int argc, char** argv, Driver& d) {
         std::ofstream(out) << res;
         return 2;
       }
+      std::string nt(sh->w[w].note, strnlen(sh->w[w].note, 239));
+      if (!nt.empty()) ci.second = "while processing: " + nt + "\n" + ci.second;
       crashes.push_back({c.order((size_t)cur), ci.first, ci.second, hang});
       if (crashes.size() > 2000) {
         sh->stop = 1;  // something is systematically broken; stop early, report what we have
